@@ -20,7 +20,7 @@ pub const DEFAULT_FUEL: u64 = 1 << 22;
 /// allocation seam: largest single request a worker serves
 pub fn alloc_cap_for(prop: &str) -> usize {
     match prop {
-        "C15" | "C16" | "C17" | "C13" | "C14" => 256 << 20,
+        "C15" | "C16" | "C17" | "C13" | "C14" => (256 << 20) + (64 << 10),
         _ => 1 << 30,
     }
 }
